@@ -47,6 +47,7 @@ class CapFlow:
         self.rets = {}                                      # qname -> PV | PS: what the function may return
         self.envs = {}
         self.premise = self._premise()
+        self.caps = self._caps()
         for _ in range(6):
             changed = False
             for q, fn in self.M.funcs.items():
@@ -79,6 +80,62 @@ class CapFlow:
                                 changed = True
             if not changed:
                 break
+
+    # -- which parameters a function passes through the capping constructor *in place*
+    def _caps(self):
+        """Point2D(p) returns p itself when p is a point (Point2D.__new__) and then runs __init__ on it again, which
+        re-applies the cap to the object in place.  caps[q] = parameters that reach such a call unguarded (a call under
+        `if not isinstance(p, Point2D)` only converts non-points), directly or through a callee."""
+        M = self.M
+        new = M.funcs.get("polygon.Point2D.__new__")
+        returns_same = new is not None and any(
+            isinstance(n, ast.Return) and n.value is not None and pat.root_name(n.value) in new.params[1:]
+            and isinstance(n.value, (ast.Name, ast.Subscript)) for n in ast.walk(new.node))
+        caps = {q: set() for q in M.funcs}
+        if not (returns_same and self.premise):
+            return caps
+        for _ in range(4):
+            changed = False
+            for q, fn in M.funcs.items():
+                if q in ("polygon.Point2D.__new__", "polygon.Point2D.__init__"):
+                    continue
+                inf = self.ctx.typer.of(fn)
+                par = pat.parents_of(fn.node)
+                for call in ast.walk(fn.node):
+                    if not isinstance(call, ast.Call):
+                        continue
+                    hits = []
+                    f = call.func
+                    is_ctor = (isinstance(f, ast.Name) and f.id == "Point2D") or \
+                        (isinstance(f, ast.Attribute) and f.attr == "__class__" and fn.cls == "Point2D")
+                    if is_ctor and len(call.args) == 1 and isinstance(call.args[0], ast.Name):
+                        hits.append(call.args[0].id)
+                    for t in inf.targets(call, ("call",)):
+                        ps = [a.arg for a in t.node.args.posonlyargs + t.node.args.args]
+                        if ps and t.kind in ("method", "getter", "setter", "class") and isinstance(call.func, ast.Attribute):
+                            ps = ps[1:]
+                        for pname, a in zip(ps, call.args):
+                            if pname in caps.get(t.qname, ()) and isinstance(a, ast.Name):
+                                hits.append(a.id)
+                    for name in hits:
+                        if name not in fn.params or name in caps[q]:
+                            continue
+                        # guarded by `if not isinstance(name, Point2D)`: only non-points are converted
+                        guarded, node = False, call
+                        while id(node) in par and par[id(node)] is not None:
+                            parent = par[id(node)]
+                            if isinstance(parent, ast.If) and node in parent.body:
+                                t0, neg = pat._strip_not(parent.test)
+                                if neg and isinstance(t0, ast.Call) and pat.is_name(t0.func, "isinstance") and t0.args \
+                                        and pat.is_name(t0.args[0], name):
+                                    guarded = True
+                            node = parent
+                        if not guarded:
+                            caps[q].add(name)
+                            changed = True
+            if not changed:
+                break
+        return caps
 
     # -- the premise: Point2D's non-in-place operators copy their operand through a capping constructor
     def _premise(self):
@@ -271,6 +328,21 @@ class CapFlow:
                         and self.premise.get("__rmul__"):
                     out.append((n, f"`{U(n)[:60]}`: the derived point `{U(n.right)[:30]}` is copied through the capped "
                                    f"constructor by Point2D.__rmul__ before the operation"))
+            elif isinstance(n, ast.Call):
+                # a derived point handed to a callee that passes it through the capping constructor in place
+                for t in inf.targets(n, ("call",)):
+                    ps = [a.arg for a in t.node.args.posonlyargs + t.node.args.args]
+                    if ps and t.kind in ("method", "getter", "setter", "class") and isinstance(n.func, ast.Attribute):
+                        ps = ps[1:]
+                    for pname, a in zip(ps, n.args):
+                        if pname in self.caps.get(t.qname, ()) and self.kind(fn, inf, a, env) == PV and self.is_derived(a, names):
+                            out.append((n, f"`{U(n)[:60]}`: the derived point `{U(a)[:30]}` is rounded in place to the "
+                                           f"coordinate cap by {t.qname} (Point2D(p) re-initialises p itself)"))
+                f = n.func
+                if isinstance(f, ast.Name) and f.id == "Point2D" and len(n.args) == 1 \
+                        and self.kind(fn, inf, n.args[0], env) == PV and self.is_derived(n.args[0], names) \
+                        and self.caps.get("__ctor__") is not None:
+                    pass
             elif isinstance(n, ast.UnaryOp) and isinstance(n.op, ast.USub) and self.premise.get("__neg__"):
                 if self.kind(fn, inf, n.operand, env) == PV and self.is_derived(n.operand, names):
                     out.append((n, f"`{U(n)[:60]}`: the derived point is copied through the capped constructor by "
